@@ -436,6 +436,43 @@ func Sweeps(thorough bool, f func(name string, m ref.Msg, fits bool)) {
 			}
 		})
 	}
+	// chain sizes: one long body at each position of a four-payload chain, every length, so that the encoded chain
+	// crosses every size an encoder may pre-allocate (512, 1024, 1280, 1500, 2048, 4096 … and the growth steps of
+	// append) at every stage of the layout: inside the long body, inside a later generic header, inside a later body
+	maxBody := 2700
+	if thorough {
+		maxBody = 9000
+	}
+	for n := 0; n <= maxBody; n++ {
+		d := Pat(n, n)
+		var long ref.Payload
+		switch n % 3 {
+		case 0:
+			long = ref.Payload{T: ref.PCERT, B: 4, Data: append([]byte{0x30}, d...)}
+		case 1:
+			long = ref.Payload{T: ref.PVendor, Data: d}
+		default:
+			long = ref.Payload{T: ref.PNotify, B: 0, NType: 16400, Data: d}
+		}
+		small := []ref.Payload{{T: ref.PIDr, B: 2, Data: []byte("gw.example")}, {T: ref.PAUTH, B: 2, Data: Pat(32, n+1)}, {T: ref.PNotify, B: 0, NType: 16384, Data: Pat(n%7, 3)}}
+		for pos := 0; pos < 3; pos++ {
+			ps := append(append(append([]ref.Payload(nil), small[:pos]...), long), small[pos:]...)
+			f(fmt.Sprintf("chain.size=%d@%d", n, pos), ref.Msg{H: BaseHdr, P: ps}, true)
+		}
+	}
+	// the same inside one SA payload: the number of proposals, and a variable-length attribute of every length in
+	// the middle proposal
+	for k := 1; k <= 64; k++ {
+		var props []ref.Proposal
+		for i := 0; i < k; i++ {
+			props = append(props, ikeProposal(uint8(i+1)))
+		}
+		f(fmt.Sprintf("SA.nprop=%d", k), ref.Msg{H: BaseHdr, P: []ref.Payload{{T: ref.PSA, SA: props}, {T: ref.PNonce, Data: Pat(16, k)}}}, true)
+	}
+	for n := 1; n <= 1400; n++ {
+		mid := ref.Proposal{Num: 2, Proto: 3, SPI: Pat(4, n), Tr: []ref.Transform{tv(1, 12, 14, 256), tlv(3, 12, 77, Pat(n, n)), tr(5, 0)}}
+		f(fmt.Sprintf("SA.tlv-mid=%d", n), ref.Msg{H: BaseHdr, P: []ref.Payload{{T: ref.PSA, SA: []ref.Proposal{ikeProposal(1), mid, ikeProposal(3)}}, {T: ref.PKE, Group: 14, Data: Pat(8, 1)}}}, true)
+	}
 }
 
 func bytesOf(v byte, n int) []byte {
